@@ -82,6 +82,7 @@ def run_case(c):
         entry = dict(pos=rnd.pos, dests=[list(d) for d in dests], wrap=bool(wrap_around))
         log.append(entry)
         root, lookup = ORIG_NER_NET(source, destinations, width, height, wrap_around, radius)
+        entry["pos_end"] = rnd.pos
         entry["ner"] = ser_safe(root)
         entry["keys"] = [list(k) for k in lookup]
         entry["broken"] = None
@@ -124,7 +125,7 @@ def run_ner(c):
                                     c["w"], c["h"], c["wrap"], c["radius"])
     except Exception as e:                  # noqa
         return dict(error=["other", type(e).__name__, str(e)[:200]])
-    return dict(error=None, ner=ser_safe(root), keys=[list(k) for k in lookup])
+    return dict(error=None, ner=ser_safe(root), keys=[list(k) for k in lookup], pos_end=rnd.pos)
 
 
 def run_any(c):
